@@ -674,3 +674,17 @@ func first(a, _ []byte) []byte { return a }
 //@   loop 2 (idx)
 //@     invariant 0 <= idx && depth + idx <= len(key)
 //@     decreases maxCmp - idx
+
+//@ func (*alphaSortedTree[K,V]).Insert
+//@   opt bind K=[]byte
+//@   opt casts on
+//@   opt extent on
+//@   opt leaf alphaLeafNode
+//@   requires WF1in_alpha(t) && sizeSane(t)
+//@   ensures[size_accounting] t.size == old(t.size) + calls("Insert$1")
+//@   ensures[wf] WF1_alpha(t)
+//@   loop 1 (depth)
+//@     invariant 0 <= depth && depth <= len(keyS)
+//@     invariant n.pointer == (*ref).pointer && n.tag == (*ref).tag
+//@     invariant n.pointer != nil && liveRef(n)
+//@     invariant slotOf(ref, t) && ref.obj != n.pointer
